@@ -63,6 +63,14 @@ def spec_items(tier):
                 for two in (False, True):
                     row0 = (('a', ((1, one),), F(-1)),) + ((('b', ((0, F(1, 2)), (1, F(1, 2))), F(-1)),) if two else ())
                     yield ('mdp', 3, (row0, (('a', exit_d, F(0)),), (('a', ((back, one),), F(-1) if back == 0 else F(0)),)), (1,), ((0, one),), g)
+    # three listed actions, states that offer only some of them -- among them states that can never reach an absorbing state
+    for g in (F(9, 10), F(1)):
+        for acts2 in (('a', 'b'), ('c',), ('a', 'c')):
+            for r2 in (F(-1), F(0)):
+                row0 = (('a', ((1, one),), F(-1)), ('b', ((2, F(1, 2)), (1, F(1, 2))), F(-1)), ('c', ((2, one),), F(-2)))
+                row1 = (('a', ((1, one),), F(0)),)
+                row2 = tuple((a, ((2, one),), r2) for a in acts2)
+                yield ('mdp', 3, (row0, row1, row2), (1,), ((0, F(1, 2)), (2, F(1, 2))), g)
     if tier == 'quick':
         yield from build.enum_mdps(2, AS, 1, R3, [(), (1,)], [build.INIT_MENU[2][0], build.INIT_MENU[2][2]],
                                    [F(9, 10), F(1)])
